@@ -19,6 +19,19 @@ PROPS = {
         technique="Lean 4 proof (level induction, ZMod refinement) + kernel-decided certificate on regenerated metadata + correspondence",
         assumptions=COMMON_ASSUME + ["real powomega tables = model tables (qn_tables stream, exhaustive per n)", "Gen/Q120Meta re-extracted every run"],
     ),
+    "C04": dict(
+        title="q120 lazy modular arithmetic never wraps 64 bits on any in-range operand",
+        module="SpqProofs.Properties.C04",
+        gen=["q120", "q120ntt"],
+        streams=dict(quick=[("qn_stages", "plain"), ("qn_ntt", "plain"), ("q1_prod", "plain")],
+                     thorough=[("qn_stages", "plain"), ("qn_ntt", "plain"), ("q1_prod", "plain"), ("qn_ntt", "asan"), ("q1_prod", "asan")]),
+        variants={"plain": None, "asan": None},
+        proved="symbolic soundness of the per-level exact-interval certificate (any metadata, any number of levels) and of the two-accumulator product kernels (any length <= N under decidable bound predicates); kernel-decided on the metadata / split points / primes / MAX_ELL read back from the live objects every run: NTT and iNTT never wrap for n = 2^1..2^16 on arbitrary 64-bit lanes and are congruent to the exact transform; products never wrap for ell <= 10000 on every in-layout operand, every mul_epu32 operand fits 32 bits, AVX2 = reference word for word",
+        not_proved="the 4 AVX2 lanes are modelled as 4 independent scalar lanes and the reference j-inner loop as lane-wise folds (tied bit-exactly by the streams on worst-case operands and by per-stage maxima in qn_stages); 29/31-bit prime builds are informational only (agent D confirmed on the real code that the 31-bit set breaks the AVX2 a*a kernel and makes baaAvxOK fail)",
+        level_text="Lean 4 theorems (certificate soundness by induction on the level list; accumulator invariants by induction on the terms) + kernel-decided obligations on constants regenerated from the live library every run; raw-lane bit-exact correspondence on extremal operands and per-stage maxima",
+        design_ref="DESIGN.md §5 C04",
+        technique="Lean 4 proof + kernel-decided certificate on regenerated facts + correspondence",
+    ),
     "C05": dict(
         title="Base-2^k normalization yields the unique balanced digit expansion",
         module="SpqProofs.Properties.C05",
@@ -27,6 +40,18 @@ PROPS = {
         not_proved="nothing of the statement is left unproved at model level; the 8 argument shapes of znx_normalize are one model function (the shapes differ only in what is stored) — tied by the kz_norm stream over all shapes and aliasing patterns",
         level_text="Lean 4 theorems: balanced base-2^k expansion (value, range, uniqueness) for every k, limb count and stride; model tied to the code by exhaustive small boxes and boundary carry chains, bit-exact",
         design_ref="DESIGN.md §5 C05",
+    ),
+    "C07": dict(
+        title="Accelerated kernels compute the same function as their reference kernels",
+        module="SpqProofs.Properties.C07",
+        gen=["dispatch"],
+        streams=dict(quick=[("vz_box", "plain"), ("r4_layout", "plain"), ("r4_arith", "plain"), ("q1_prod", "plain"), ("ff_fft", "plain"), ("md_model", "plain"), ("md_prod", "plain"), ("md_vmp", "plain")],
+                     thorough=[("vz_box", "plain"), ("r4_layout", "plain"), ("r4_arith", "plain"), ("q1_prod", "plain"), ("ff_fft", "plain"), ("md_model", "plain"), ("md_prod", "plain"), ("md_vmp", "plain")]),
+        proved="Gen obligation: every kernel the live library installs (every constructor and module-table entry, 5 CPU masks, m = 2^0..2^16) belongs to its listed equivalence class; integer AVX loops = reference for every power-of-two dimension; family theorems imported: reim4/reim/cplx products ref = avx2/fma/sse/avx512 in exact arithmetic and layout kernels equal (C17), q120 AVX2 = reference word for word (C10/C04)",
+        not_proved="float kernels of different variants differ by rounding: each variant is tied bit-exactly to its own model and to the exact-arithmetic definition, not to each other; AVX-512 FFT (cplx_fft_avx512) is not reached by any constructor on this dispatch table and is not modelled",
+        level_text="kernel-decided dispatch-closure obligation on the table read back from the live library + Lean equivalence theorems per kernel family + pairwise bit-exact correspondence under both dispatch masks",
+        design_ref="DESIGN.md §5 C07",
+        technique="Lean 4 proof + kernel-decided obligation on regenerated dispatch facts + correspondence",
     ),
     "C08": dict(
         title="vec_znx size/stride semantics",
@@ -46,6 +71,27 @@ PROPS = {
         level_text="Lean 4 theorems for all N and all p, including the in-place cycle-leader walks (termination proved) and the 2-adic orbit structure of the in-place automorphism; exhaustive injective-probe correspondence with the real int64 and double kernels",
         design_ref="DESIGN.md §5 C09",
         technique="Lean 4 proof (orbit/induction arguments, Mathlib ZMod units) + exhaustive probe correspondence",
+    ),
+    "C10": dict(
+        title="q120 products and layout conversions are exact modulo the 120-bit modulus",
+        level_text="Lean 4 theorems: every product kernel (reference and AVX2) exact modulo each prime for all ell <= 10000 and all in-layout operands under kernel-decided bound predicates on constants read back from the live precomputations; conversions congruent; centred CRT lift unique; int64 round trip; bit-exact correspondence on extremal operands",
+        design_ref="DESIGN.md §5 C10",
+        module="SpqProofs.Properties.C10",
+        variants={"plain": None},
+        gen=["q120"],   # tools/gen_q120.py: lean/Gen/Q120Consts.lean + lean/Gen/ProdPrecomp.lean
+        streams=dict(quick=[("q1_prod", "plain"), ("q1_conv", "plain")],
+                     thorough=[("q1_prod", "plain"), ("q1_conv", "plain")]),
+        proved="for the constants extracted from the code this run (primes, CRT constants, MAX_ELL, live product precomputations): "
+               "every q120 product kernel (a*a, b*b, b*c, x2 one/two columns; reference and AVX2) returns lanes congruent to the exact dot "
+               "product modulo each prime for all ell <= MAX_ELL and all operands of the layout (b: any 64-bit lane), with no 64-bit wrap and no "
+               "mul_epu32 truncation, ref == avx2 bit for bit; int64->b, int64->c, b->c, b+b, c+c are congruent/exact for all inputs; b->int128 is "
+               "the unique centered representative mod Q (no __int128 overflow); int64->b->int128 is the identity on all int64; block "
+               "extract/save are mutually inverse for every block index",
+        not_proved="the model is lane-wise (one fold per output lane, justified by lane independence of the C loops) and is tied to the C code "
+                   "by the bit-exact streams q1_prod/q1_conv; the floating-point search choosing the split point h is not modelled (its result "
+                   "is extracted from the live precomp object and checked by the decidable predicates); _avx block extract/save variants and "
+                   "q120x2_extract_1blk_from_q120c_ref (an alias) are not streamed",
+        assumptions=COMMON_ASSUME + ["little-endian uint32 view of uint64 lanes (x86-64)"],
     ),
     "C11": dict(
         title="Memory contract: declared extents and *_tmp_bytes scratch are never exceeded",
@@ -94,6 +140,18 @@ PROPS = {
         not_proved="the inverse DFT in place and pointwise products with r==a are float kernels: covered by the module-level streams (bit-exact), theorem staged with the FFT model",
         level_text="Lean 4 theorems: aliased call = separate-buffer call on identical data for every shape; in-place kernels tied to the real code by the exhaustive probe stream",
         design_ref="DESIGN.md §5 C13",
+    ),
+    "C16": dict(
+        title="Pipelines of API calls compute the corresponding expression in Z[X]/(X^N+1)",
+        module="SpqProofs.Properties.C16",
+        streams=dict(quick=[("md_prog", "plain"), ("vz_box", "plain")],
+                     thorough=[("md_prog", "plain"), ("vz_box", "plain")]),
+        proved="coefficient-space fragment, complete: for every layout (N = 2^t, strides >= N, pairwise disjoint variables inside one int64 heap), every straight-line program of add/sub/negate/copy/rotate/automorphism/normalize calls (any length, destination equal to a source or not, any limb counts incl. 0) and every input, if the exact interpreter stays in budget (every stored coefficient fits int64; |normalize input| <= 2^62, k in [1,62]; odd automorphism index) then the heap after running the model of vec_znx.c holds, limb by limb, the exact expression in Z[X]/(X^N+1) (pointwise +-, X^p*a, a(X^p) = sum a_i X^(ip), balanced base-2^k digits), all other cells (padding, other variables) are unchanged and no access was out of bounds (coeff_prog_refines, coeff_prog_output; per-call *_sim derived from the C08/C09/C05 specs). Mixed programs (dft, svp_prepare/apply, vmp_prepare/apply, idft, small product on a second store of opaque objects): prog_refines_partial proves the refinement for every module and every program relative to the record DftOpsSound of per-function exactness facts (dft_exact, svp_exact, vmp_exact, dft_idft_exact, small_product_exact = the C01/C02 theorems) - heap reads with strides, stores, frames, interplay with coefficient-space calls and validity of opaque objects as inputs of later calls are proved; DftOpsSound is shown inhabited (identity-transform module)",
+        not_proved="DftOpsSound is not yet instantiated for the library's FFT64 module (exact-arithmetic instance = C01/C02 exact parts; binary64 instance additionally needs the C06.4/C01 error budget): the DFT-space part of the statement is therefore relative to those hypotheses (theorem named prog_refines_partial). NTT120 big-coefficient programs (int128 limbs) are covered by the md_prog stream only. The closed coefficient formulas are the textbook ones for Z[X]/(X^N+1); no bridge to Mathlib's AdjoinRoot",
+        level_text="Lean 4 refinement theorem (simulation by induction on the program) for the whole coefficient-space fragment over the heap model of vec_znx.c; DFT-space extension proved relative to an explicit record of per-function exactness hypotheses; random well-typed programs over the real library (both dispatch masks, aliasing, shapes) checked against an independent 128-bit exact interpreter",
+        design_ref="DESIGN.md §5 C16",
+        technique="Lean 4 proof (generic simulation theorem + per-call lemmas from C08/C09/C05 specifications) + differential program-level correspondence",
+        assumptions=COMMON_ASSUME + ["per-call models = the code: vz_box stream (C08/C09/C05 ties)", "DFT-space calls: DftOpsSound (C01/C02) for the module in use"],
     ),
     "C17": dict(
         title="Block layouts and complex-vector kernels are faithful and mutually inverse",
